@@ -224,3 +224,28 @@ pub fn shape(cap: usize, order: u8) {
     vcover!(true, "cover:end");
     core::mem::forget(ta);
 }
+
+/// layout arithmetic of the REAL list for every capacity up to 2^32: the header,
+/// every slot 0..=cap (slot `cap` is the queue's stub node) lie inside the
+/// allocated block, suitably aligned, without overlap
+#[cfg(not(futures_buffered_verif_model))]
+pub fn layout_arith() {
+    let cap = nd::usize_any();
+    nd::assume(cap <= 1usize << 32, "cap bound");
+    let (size, align, off, isz, ial, hsz) = v::real_layout(cap);
+    vassert!(isz > 0 && ial > 0 && isz % ial == 0, "C03:slot size is not a multiple of its alignment");
+    vassert!(off >= hsz, "C03:slot 0 overlaps the header");
+    vassert!(off % ial == 0 && align % ial == 0, "C03:slots are misaligned inside the block");
+    vassert!(off + (cap + 1) * isz <= size, "C03:the last slot (the queue's stub node) lies outside the allocated block");
+    let i = nd::usize_any();
+    nd::assume(i <= cap, "slot index");
+    vassert!(off + i * isz + isz <= size, "C03:a slot lies outside the allocated block");
+    // header recovery used by every waker: (slot address - i slots) - off
+    let base = 0x1000usize;
+    let slot_addr = base + off + i * isz;
+    vassert!(slot_addr - i * isz - off == base, "C03:header pointer arithmetic is not the inverse of the slot address");
+    vcover!(cap == 0, "cover:cap0");
+    vcover!(cap == 1usize << 32, "cover:cap_max");
+}
+#[cfg(futures_buffered_verif_model)]
+pub fn layout_arith() {}
